@@ -252,6 +252,7 @@ class WSModel:
                    for n in walk_self(binit.node)):
             raise AnchorError('%s.client_disconnected not initialised in __init__' % BUFRX)
         self._memo: Dict[tuple, Result] = {}
+        self._alias_memo: Dict[tuple, bool] = {}
         self._active: Set[tuple] = set()
         self.visited_funcs: Set[str] = set()
         self.builder_dicts: Set[int] = set()
@@ -269,6 +270,66 @@ class WSModel:
 
     def is_state(self, e) -> bool:
         return isinstance(e, ast.Attribute) and e.attr == self.state_attr and isinstance(e.value, ast.Name) and e.value.id == 'self'
+
+    def reads_state(self, func: Func, e) -> bool:
+        """`e` evaluates to the CURRENT value of the state attribute: the attribute itself, or a local bound exactly once to it
+        (``state = self._state``) that cannot be stale where it is used - no path from the binding to a use passes a state write,
+        a suspension point or a call of a method of the class that may write the state.  A once-bound local that CAN be stale is
+        an unknown idiom (the cell analysis tracks the attribute, not snapshots of it)."""
+        if self.is_state(e):
+            return True
+        if not (isinstance(e, ast.Name) and isinstance(e.ctx, ast.Load)) or e.id in func.params():
+            return False
+        key = (func.qual, e.id)
+        if key not in self._alias_memo:
+            self._alias_memo[key] = self._fresh_state_alias(func, e.id)
+        return self._alias_memo[key]
+
+    def _may_write_state(self, m: Func, depth=0) -> bool:
+        if self._writes_state(m.node):
+            return True
+        for c in walk_self(m.node):
+            if isinstance(c, ast.Call):
+                g = self._self_method(m, c)
+                if g is not None and g is not m and (depth >= 3 or self._may_write_state(g, depth + 1)):
+                    return True
+        return False
+
+    def _fresh_state_alias(self, func: Func, name: str) -> bool:
+        from .. import flow
+        ds = local_defs(func, name)
+        if not (len(ds) == 1 and ds[0] is not None and self.is_state(ds[0])):
+            if any(d is not None and self.is_state(d) for d in ds):
+                raise UnknownIdiom('%s: the local %s is bound to the state attribute and to something else' % (func.qual, name))
+            return False
+        cfg = cfg_of(func, self.p)
+        bind = [n.id for n in cfg.live_nodes() if n.kind == 'stmt' and isinstance(n.ast, (ast.Assign, ast.AnnAssign)) and n.ast.value is ds[0]]
+        if len(bind) < 1:
+            raise UnknownIdiom('%s: binding of %s to the state attribute is not a plain statement' % (func.qual, name))
+
+        def dirty(n) -> bool:
+            if n.susp:
+                return True
+            for x in n.own():
+                if self._writes_state(x):
+                    return True
+            for c in n.calls():
+                m = self._self_method(func, c)
+                if m is not None and self._may_write_state(m):
+                    return True
+            return False
+
+        uses = [n.id for n in cfg.live_nodes() if n.id not in bind
+                and any(isinstance(x, ast.Name) and x.id == name and isinstance(x.ctx, ast.Load) for x in n.walk())]
+        starts = [y for b in bind for (y, l) in cfg.succ[b] if l != 'exc']
+        live = flow.reachable(cfg, starts, avoid_nodes=set(bind))
+        stale_src = [i for i in live if i not in bind and dirty(cfg.node(i))]
+        after_dirty = flow.reachable(cfg, [y for i in stale_src for (y, _l) in cfg.succ[i]], avoid_nodes=set(bind)) if stale_src else set()
+        for u in uses:
+            if u in after_dirty or u in stale_src:
+                raise UnknownIdiom('%s: the local %s (a snapshot of the state attribute) is used in `%s` after the state may have changed'
+                                   % (func.qual, name, short(cfg.node(u).ast if cfg.node(u).ast is not None else name, 60)))
+        return True
 
     def is_disc(self, e) -> bool:
         return (isinstance(e, ast.Attribute) and e.attr == 'client_disconnected' and isinstance(e.value, ast.Attribute)
@@ -288,9 +349,9 @@ class WSModel:
         def atom(e):
             if isinstance(e, ast.Compare) and len(e.ops) == 1:
                 l, r, op = e.left, e.comparators[0], e.ops[0]
-                if self.is_state(r) and not self.is_state(l):
+                if self.reads_state(func, r) and not self.reads_state(func, l):
                     l, r = r, l
-                if self.is_state(l):
+                if self.reads_state(func, l):
                     if isinstance(op, (ast.Eq, ast.Is, ast.NotEq, ast.IsNot)):
                         k = self._member(func, r)
                         if k is None:
@@ -314,7 +375,7 @@ class WSModel:
                 if len(ds) == 1 and isinstance(ds[0], ast.Attribute) and ds[0].attr == self.buf_attr and isinstance(ds[0].value, ast.Name) \
                         and ds[0].value.id == 'self':
                     return {d}
-            if self.is_state(e):
+            if self.reads_state(func, e):
                 raise UnknownIdiom('%s: bare use of the state in a condition: %s' % (func.qual, short(e)))
             if isinstance(e, ast.Attribute) and isinstance(e.value, ast.Name) and e.value.id == 'self' and depth < 4:
                 m = self.p.lookup_method(self.cls.qual, e.attr)
